@@ -64,6 +64,10 @@ func (u *uploader) uploadReport(fname string) {
 // try to upload the report, 'true' if successful
 func (u *uploader) uploadReportContents(fname string, buf []byte) bool {
 	fdate := strings.TrimSuffix(filepath.Base(fname), ".json")
+	if len(fdate) < len(telemetry.DateOnly) {
+		u.logger.Printf("Report name %q too short to hold a date", filepath.Base(fname))
+		return false
+	}
 	fdate = fdate[len(fdate)-len(telemetry.DateOnly):]
 
 	newname := filepath.Join(u.dir.UploadDir(), fdate+".json")
